@@ -1,4 +1,5 @@
 import PersimVerif.Lemmas.LandscapeCell
+import PersimVerif.Lemmas.LandscapeSweepTotal
 import Mathlib.Algebra.Order.Field.Rat
 import Mathlib.Algebra.Order.Ring.Abs
 
@@ -265,21 +266,75 @@ example : (sweep (α := ℚ) [(0, 2), (2, 4), (0, 4), (1, 4), (0, 4)]).map (fun 
 example : ([[((0:ℚ), some (3:ℚ)), (1, some 4)], [(1, some 4)]] : List (List (ℚ × Option ℚ)))[1]? = some [(1, some 4)] := rfl
 example : ([((0:ℚ), some (3:ℚ)), (1, some 4)] : List (ℚ × Option ℚ)).getLast? = some (1, some 4) := rfl
 
-/-! ### stretch goal (stated, not proved)
+/-! ### the sweep itself, for every diagram (the design's stretch goal — proved)
 
-`sweep_correct_of_not_fired`: whenever the repeated-bar shortcut does not fire, the sweep's output is
-the landscape at every `t` and `k`.  A direct proof needs the sortedness invariant of the work list under
-re-insertion and a pointwise multiset invariant (DESIGN.md, C03); it is **not** proved here.  What is
-proved instead is `certify_sound`, which the harness applies to the real code's output per diagram. -/
+The proof (in `Lemmas/LandscapeSweep*.lean`) follows one level of the Bubenik–Dlotko sweep with an
+invariant: the work list stays sorted by `(b ↑, d ↓)` under the code's re-insertion index logic; the
+function built so far is the pointwise maximum of the bars used so far; its pointwise minimum with the next
+bar is the tent of the residual bar `(b',d)` (Case III) or `0` (Cases I, II), so the multiset of tent values
+at every `t` is preserved up to zeros; every remaining bar that dies before the current one is dominated. -/
 
-/-- [S] statement only -/
-def sweep_correct_of_not_fired_statement : Prop :=
-  ∀ (bars : List (ℚ × ℚ)) (o : Out ℚ), (∀ p ∈ bars, p.1 < p.2) → sweep bars = some o → o.fired = 0 →
-    ∀ k t, evalDepth o.cps k t = landscape bars k t
+section Sweep
+variable {K : Type} [Field K] [LinearOrder K] [IsStrictOrderedRing K]
 
-/-- [S] statement only: without the shortcut the sweep is correct on every diagram -/
-def sweepNoShortcut_correct_statement : Prop :=
-  ∀ (bars : List (ℚ × ℚ)) (L : List (List (ℚ × ℚ))), (∀ p ∈ bars, p.1 < p.2) → sweepNoShortcut bars = some L →
-    ∀ k t, evalDepth L k t = landscape bars k t
+/-- **the model of `compute_landscape` always returns** (its fuel never runs out), with and without the
+    shortcut; so `Err.fuel` is never the constructor's answer -/
+theorem sweep_returns (bars : List (K × K)) :
+    (∃ o, sweep bars = some o) ∧ (∃ L, sweepNoShortcut bars = some L) :=
+  ⟨sweep_total bars, sweepNoShortcut_total bars⟩
+
+theorem exact_never_fuel (dgms : List (List (K × Option K))) (h : Int) : exact dgms h ≠ .error .fuel := by
+  unfold exact
+  cases hs : selectBars dgms h with
+  | error e =>
+    simp only
+    intro he
+    have : e = .fuel := by simpa using he
+    exact selectBars_ne_fuel dgms h (by rw [hs, this])
+  | ok bars =>
+    obtain ⟨o, ho⟩ := sweep_total bars
+    simp [ho]
+
+/-- **`sweepNoShortcut_correct`**: for every finite diagram with bars of positive length (any number of
+    bars, any order, nested / touching / equal births / equal deaths / repeated bars), the sweep *without*
+    the repeated-bar shortcut returns critical points that are well formed (≥ 2 points per depth, strictly
+    increasing abscissae, zero end values), at most one depth per bar, and whose piecewise-linear
+    functions equal the landscape at every `t` and every depth `k` -/
+theorem sweepNoShortcut_correct (bars : List (K × K)) (hpos : ∀ p ∈ bars, p.1 < p.2) :
+    ∃ L, sweepNoShortcut bars = some L ∧ (∀ c ∈ L, wellFormed c = true) ∧ L.length ≤ bars.length ∧
+      ∀ k t, evalDepth L k t = landscape bars k t := by
+  obtain ⟨L, hL⟩ := sweepNoShortcut_total bars
+  obtain ⟨hwf, hlen⟩ := sweepNoShortcut_wellFormed hpos hL
+  exact ⟨L, hL, hwf, hlen, fun k t => sweepNoShortcut_sound hpos hL k t⟩
+
+/-- **`sweep_correct_of_not_fired`**: for every finite diagram with bars of positive length, the model of the
+    *current* code (shortcut included) returns, and whenever its repeated-bar shortcut did not fire its
+    critical points are well formed and equal the landscape at every `t` and every depth `k` -/
+theorem sweep_correct_of_not_fired (bars : List (K × K)) (hpos : ∀ p ∈ bars, p.1 < p.2) :
+    ∃ o, sweep bars = some o ∧
+      (o.fired = 0 → (∀ c ∈ o.cps, wellFormed c = true) ∧ ∀ k t, evalDepth o.cps k t = landscape bars k t) := by
+  obtain ⟨o, ho⟩ := sweep_total bars
+  refine ⟨o, ho, fun hf => ?_⟩
+  have h2 : sweepNoShortcut bars = some o.cps := by
+    unfold sweep at ho
+    unfold sweepNoShortcut
+    exact outer_not_fired _ _ _ _ o ho hf
+  exact ⟨(sweepNoShortcut_wellFormed hpos h2).1, fun k t => sweepNoShortcut_sound hpos h2 k t⟩
+
+/-- the same for the whole constructor: selection by `hom_deg`, trailing infinite bar removed, sweep -/
+theorem exact_correct_of_not_fired (dgms : List (List (K × Option K))) (h : Int) (bars : List (K × K))
+    (hsel : selectBars dgms h = .ok bars) (hpos : ∀ p ∈ bars, p.1 < p.2) :
+    ∃ o, exact dgms h = .ok o ∧
+      (o.fired = 0 → ∀ k t, evalDepth o.cps k t = landscape bars k t) := by
+  obtain ⟨o, ho, hc⟩ := sweep_correct_of_not_fired bars hpos
+  refine ⟨o, ?_, fun hf => (hc hf).2⟩
+  simp [exact, hsel, ho]
+
+end Sweep
+
+/-- non-vacuity: a diagram with nested, touching, equal-birth and equal-death bars on which the shortcut
+    does not fire -/
+example : (sweep (α := ℚ) [(0, 6), (0, 4), (2, 6), (1, 5), (6, 8)]).map (fun o => o.fired) = some 0 := by
+  decide +kernel
 
 end PersimVerif.C03
